@@ -57,7 +57,7 @@ LAST_ITEMS = [
 DEFS = ["def string S = 's v'", "def list L = l1 'l 2'", 'def list E = ', 'def path P = -rel-act pf']
 
 FORMS = ('percent', 'path', 'python', 'sym', 'sym2')
-STDINS = ('none', 'str', 'here', 'file', 'prog', 'setup', 'both')
+STDINS = ('none', 'str', 'here', 'file', 'prog', 'setup', 'both', 'prog-ign', 'prog-err-ign', 'prog-err')
 PLACES = ('act', 'setup-run', 'before-assert-run', 'assert-run', 'cleanup-run', 'setup-percent', 'stdout-from', 'run-transformer',
           'run-text-matcher', 'run-file-matcher', 'exit-code-from')
 
@@ -147,6 +147,12 @@ def stdin_src(kind):
         return '-stdin -contents-of -rel-home data.txt', None, 'data file\n', ''
     if kind == 'prog':
         return '-stdin -stdout-from % gen', None, 'GEN', ''
+    if kind == 'prog-ign':
+        return '-stdin -stdout-from -ignore-exit-code % genfail', None, 'GENOUT', ''
+    if kind == 'prog-err-ign':
+        return '-stdin -stderr-from -ignore-exit-code % genfail', None, 'GENERR', ''
+    if kind == 'prog-err':
+        return '-stdin -stderr-from % generr', None, 'GENERR0', ''
     if kind == 'setup':
         return None, "stdin = 'setup stdin'", '', 'setup stdin'
     return "-stdin 'prog stdin'", "stdin = 'setup stdin'", 'prog stdin', 'setup stdin'
@@ -282,7 +288,7 @@ def run(case) -> Result:
 
 
 def _target_calls(seam, exp_first):
-    return [c for c in seam.calls if c['name'] not in ('atc', 'gen')]
+    return [c for c in seam.calls if c['name'] not in ('atc', 'gen', 'genfail', 'generr')]
 
 
 def _virtual(res, case, w, seam):
@@ -296,6 +302,8 @@ def _virtual(res, case, w, seam):
     text, exp, outcome = b
     seam.default = {'out': OUT, 'err': '' if silent else ERR, 'exit': code}
     seam.script['gen'] = {'out': 'GEN'}
+    seam.script['genfail'] = {'out': 'GENOUT', 'err': 'GENERR', 'exit': 3}
+    seam.script['generr'] = {'out': 'ignored', 'err': 'GENERR0', 'exit': 0}
     seam.script['atc'] = {'out': 'atc out\n'}
     o = cli.run_case(text)
     errs = []
@@ -303,7 +311,7 @@ def _virtual(res, case, w, seam):
         errs.append('exception / hang: %s' % o.exc)
     if o.ident != outcome:
         errs.append('outcome %s (rc %s), expected %s / %s' % (o.ident, o.rc, outcome, ' / '.join(cli.stderr_lines(o.err)[:8])))
-    calls = [c for c in seam.calls if c['name'] not in ('atc', 'gen')]
+    calls = [c for c in seam.calls if c['name'] not in ('atc', 'gen', 'genfail', 'generr')]
     home = str(w.home)
     if not calls:
         errs.append('the program was not started')
